@@ -14,6 +14,7 @@ import (
 	"io/fs"
 	"strconv"
 	"strings"
+	"sync"
 	"syscall"
 
 	"verifsim/sim/kern"
@@ -120,11 +121,22 @@ func CommandContext(ctx context.Context, name string, arg ...string) *Cmd {
 func (c *Cmd) String() string { return strings.Join(c.Args, " ") }
 
 type stdinPipe struct {
+	// hbmu orders, for the race detector, the accesses of the writer's goroutine and of the
+	// goroutine that starts the process (an os pipe is safe for that; the baton that makes these
+	// accesses exclusive is invisible to the detector). Never held across a kernel call.
+	hbmu   sync.Mutex
 	c      *Cmd
 	buf    []byte
 	closed bool
 	gate   simsync.WaitGroup // open once Start has been attempted
 	gated  bool
+}
+
+func (p *stdinPipe) hb() {
+	if p != nil {
+		p.hbmu.Lock()
+		p.hbmu.Unlock() //nolint:staticcheck // happens-before edge only
+	}
 }
 
 // release lets a writer that filled the pipe before the process was started go on.
@@ -136,6 +148,8 @@ func (p *stdinPipe) release() {
 }
 
 func (p *stdinPipe) Write(b []byte) (int, error) {
+	p.hb()
+	defer p.hb()
 	if p.closed {
 		return 0, fs.ErrClosed
 	}
@@ -152,8 +166,10 @@ func (p *stdinPipe) Write(b []byte) (int, error) {
 		p.buf = append(p.buf, b[:room]...)
 		b = b[room:]
 		written = room
+		p.hb()
 		kern.Call(kern.Req{Op: kern.OpNote, S: "write to stdin pipe of a process that is not started: pipe buffer full"})
 		p.gate.Wait()
+		p.hb()
 		if !p.c.started {
 			// the start failed: the read end is gone
 			return written, &fs.PathError{Op: "write", Path: "|1", Err: syscall.EPIPE}
@@ -170,6 +186,8 @@ func (p *stdinPipe) Write(b []byte) (int, error) {
 }
 
 func (p *stdinPipe) Close() error {
+	p.hb()
+	defer p.hb()
 	if p.closed {
 		return nil
 	}
@@ -205,6 +223,8 @@ func (pipeMarker) Read([]byte) (int, error) { return 0, io.EOF }
 
 // Start starts the simulated process.
 func (c *Cmd) Start() error {
+	c.pipe.hb()
+	defer c.pipe.hb()
 	if c.started {
 		return errors.New("exec: already started")
 	}
@@ -256,7 +276,9 @@ func (c *Cmd) Start() error {
 			return &fs.PathError{Op: "fork/exec", Path: c.Path, Err: syscall.ENOENT}
 		}
 	}
+	c.pipe.hb()
 	r := kern.Call(kern.Req{Op: kern.OpProcStart, Strs: argv, Data: stdin, A: flags})
+	c.pipe.hb()
 	c.pid = int(r.A)
 	if r.Status != 0 {
 		c.finished = true
@@ -269,10 +291,13 @@ func (c *Cmd) Start() error {
 		for len(c.pipe.buf) > taken {
 			chunk := c.pipe.buf[taken:]
 			taken = len(c.pipe.buf)
+			c.pipe.hb()
 			kern.Call(kern.Req{Op: kern.OpProcStdin, A: int64(c.pid), Data: chunk})
+			c.pipe.hb()
 		}
 	}
 	c.started = true
+	c.pipe.hb()
 	if c.pipe != nil && c.pipe.closed && !closed {
 		kern.Call(kern.Req{Op: kern.OpProcStdin, A: int64(c.pid), B: 1})
 	}
